@@ -65,12 +65,37 @@ theorem unseal_ok_inv (P : Params) (k : Bytes) (now : Int) (u : Url) (res : Byte
   split at h; · cases h
   split at h; · cases h
   split at h; · cases h
-  rename_i hp _ _ _ _ _ nbf hnbf _ exp hexp _ nonce hnonce hw1 hw2 _ ct hct hlen _ msg hopen _ r hparse hpath
+  rename_i hp _ _ _ _ _ nbf hnbf _ exp hexp _ nonce hnonce hw1 hw2 hlen _ ct hct _ msg hopen _ r hparse hpath
   cases h
   exact ⟨{ pfx := by simpa using hp, nbf := nbf, exp := exp, nonce := nonce, ct := ct, msg := msg, parsed := r,
            hnbf := hnbf, hexp := hexp, hnonce := hnonce, hwin := ⟨by omega, by omega⟩, hct := hct,
            hlen := by simpa using hlen, hopen := hopen, hparse := hparse, hpath := by simpa using hpath,
            hres := rfl }⟩
+
+/-- **Unseal never reaches `cipher.AEAD.Open` with a nonce of the wrong length** (where Go's
+`Open` panics): replacing the AEAD by any other that agrees with it on 12-byte nonces does not
+change the result, whatever the URL.  With the result type having no panic outcome, `Unseal` is
+total: every input is accepted or rejected with one of the 15 error classes. -/
+theorem unseal_open_guarded (P : Params) (A' : Aead)
+    (hagree : ∀ k n aad c, n.length = nonceLen → A'.openA k n aad c = P.aead.openA k n aad c)
+    (k : Bytes) (now : Int) (u : Url) :
+    unsealUrl { P with aead := A' } k now u = unsealUrl P k now u := by
+  unfold unsealUrl
+  simp only
+  split <;> try rfl
+  split <;> try rfl
+  split <;> try rfl
+  split <;> try rfl
+  split <;> try rfl
+  split <;> try rfl
+  split <;> try rfl
+  split <;> try rfl
+  split <;> try rfl
+  split <;> try rfl
+  split <;> try rfl
+  rename_i hlen
+  split <;> try rfl
+  rw [hagree _ _ _ _ (by simpa using hlen)]
 
 theorem sealed_query (P : Params) (k nonce ep rq : Bytes) (now now2 : Int) :
     (sealUrl P k now now2 nonce ep rq).query =
